@@ -86,6 +86,16 @@ def gen_spec(rng, nmax=8, p_lit=0.2, p_dep=0.25, p_kw=0.3, cyclic=False):
         for _ in range(rng.choice([0, 1, 1, 2, 3])):
             if i > 0 and rng.random() < 0.8:
                 ref = {"n": rng.randrange(i)}
+                if rng.random() < 0.25:
+                    # a node inside a structure: the dependency is routed through gather calls
+                    other = {"n": rng.randrange(i)} if rng.random() < 0.5 else {"v": rng.randrange(100)}
+                    kind = rng.choice(["list", "tuple", "dict", "nested"])
+                    if kind == "dict":
+                        ref = {"dict": [[{"v": "k"}, ref], [{"v": "o"}, other]]}
+                    elif kind == "nested":
+                        ref = {"list": [{"tuple": [ref, other]}, {"v": 1}]}
+                    else:
+                        ref = {kind: [ref, other]}
             else:
                 ref = {"v": rng.randrange(100)}
             if rng.random() < p_kw:
